@@ -448,7 +448,7 @@ def build_c01_corpus(ctx, corp, n_exh, n_sampled, weights=None, max_nodes=12, sa
         corp.add(p)
     for body in gen.sampled(rng, n_sampled, max_nodes, weights):
         body = transform(body, rng, gen.Ctr())
-        p = gen.Program("s%04d" % pid, body, named_result=(pid % 2 == 0), family="smp")
+        p = gen.Program("s%04d" % pid, body, helpers=C01_HELPERS if "H2(" in repr(body) else "", named_result=(pid % 2 == 0), family="smp")
         # the same grammar in every generator form: function, function literal, value / pointer
         # method, generic function, nested literal generator reached through YieldFrom
         p.form = gen.FORMS[pid % len(gen.FORMS)]
@@ -1086,7 +1086,7 @@ def plan_C14(ctx):
             makers = ["%s(a, b, n, g1, g2, g3)" % p.name, "%s(a, b, n, g1, g2, g3)" % p.name, "%s(b, a, n, !g1, g2, g3)" % p.name][:k]
             if helpers == gen.C05_HELPERS and k >= 2:
                 makers[1] = "R1(n+1, b)"  # a recursive delegator as the second iterator
-            p.helpers = (helpers + "\n" if helpers else "") + gen.il_driver(p.name, k, m, makers)
+            p.helpers = (p.helpers + "\n" if p.helpers else "") + gen.il_driver(p.name, k, m, makers)
             n += 1
             corp.add(p)
         return {"programs": n, "iterators_k": k, "steps_each_m": m, "interleavings_per_program": "all schedules giving each iterator exactly m steps (k=2,m=3: 20; k=3,m=2: 90)"}
